@@ -1097,6 +1097,27 @@ func execEmbed(ops []string, mon *Mon) []string {
 				}
 				return vecHex(bits)
 			})
+			// C02: the embedding of a query is a function of the index and the text - the same call again gives the same bits
+			// (a sum taken in the iteration order of a map would not)
+			for k := 0; k < 6 && !strings.HasPrefix(r, "panic"); k++ {
+				again := safely(func() string {
+					v := st.idx.EmbedQuery(q)
+					if len(v) == 0 {
+						return "nil-or-empty"
+					}
+					bits := bitsOf(v)
+					for i, x := range v {
+						if x != x {
+							bits[i] = 0x7fc00000
+						}
+					}
+					return vecHex(bits)
+				})
+				if again != r && !(again == "nil-or-empty" && (r == "nil" || r == "empty")) {
+					mon.Hit("C02", "nondeterministic-embedding", map[string]interface{}{"query": q, "first": r, "again": again, "call": k + 2})
+					break
+				}
+			}
 			if isASCII(q) {
 				line = r
 			} else {
